@@ -12,7 +12,7 @@ import numpy as np
 
 from .. import gen, probes
 from ..common import Outcome, digest, subseed
-from ..oracles import EPS, dense_from_compact, model_tol, model_value, ref_gcp, ref_subspace
+from ..oracles import EPS, dense_from_compact, middle_cond, model_tol, model_value, ref_gcp, ref_subspace
 from .C08 import VARP, build_pattern_input, make_memory
 
 LEVEL = "exploration"
@@ -21,7 +21,7 @@ RULE = ("synthetic: structural patterns (n<=2 quick, n<=3 thorough sampled) and 
         "Oracle: dense reduced Newton step on the variables strictly inside the box at x_cp, largest alpha<=1 keeping the box. "
         "Non-trivial = some-free partition with a binding truncation (alpha*<1); distinct = distinct inputs (hash)")
 ASSUMPTIONS = [
-    "point tolerance scale*max(1e-9, 2e3*cond(Z'BZ)*eps) (largest observed error 33*cond*eps*scale); inputs with cond(B) > 1e8 skipped and counted",
+    "point tolerance scale*max(1e-9, 5e4*(cond(Z'BZ)+cond(middle matrix))*eps; 1e-4*scale when more pairs than free variables are stored (singular compact system)) (largest observed ratio reported in maxima); inputs with cond(B) > 1e8 or cond(middle matrix) > 1e12 skipped and counted",
     "feasibility of the returned point is required to 8 ulp here (exactness of evaluated points is C02's subject)",
     "intercepted events whose auxiliary vector disagrees with W^T(x_cp-x) or whose x is infeasible are attributed upstream and skipped",
 ]
@@ -34,11 +34,15 @@ def floors(tier):
             "binding_truncation": 300, "intercepted_calls": 300, "descent_checked": 2000, "__nontrivial__": 250}
 
 
-def judge_subspace(out, x, xc, g, lb, ub, B, xbar, where, tags):
+def judge_subspace(out, x, xc, g, lb, ub, B, xbar, where, tags, mats=None):
     n = x.size
     kappa = float(np.linalg.cond(B))
     if not np.isfinite(kappa) or kappa > KMAX:
         out.count("skipped_ill_conditioned")
+        return None
+    kmid = middle_cond(mats) if mats is not None else 1.0
+    if kmid > 1e12:
+        out.count("skipped_ill_conditioned_memory")  # more (or dependent) pairs than variables
         return None
     ref = ref_subspace(x, xc, g, lb, ub, B)
     out.count("judged")
@@ -68,8 +72,18 @@ def judge_subspace(out, x, xc, g, lb, ub, B, xbar, where, tags):
         out.count("binding_truncation")
     scale = max(1.0, float(np.max(np.abs(x))), float(np.max(np.abs(ref["xbar"] - x))))
     err = float(np.max(np.abs(xbar - ref["xbar"])))
-    out.maxi("max_point_err_over_scale_kappa_eps", err / (scale * max(ref["cond"], 1.0) * EPS))
-    if not (err <= scale * max(PT_TOL, 2e3 * ref["cond"] * EPS)):
+    npairs = int(mats.S.shape[1]) if (mats is not None and mats.use_factor) else 0
+    if npairs > free.size > 0:
+        # more pairs than free variables: the 2m x 2m system the routine factorises is singular in exact arithmetic
+        # (S^T Y restricted to the free variables has rank <= #free); only rounding-level accuracy relative to that
+        # singular system can be expected. Judged with a loose tolerance and reported separately.
+        out.count("rank_deficient_memory_inputs")
+        out.maxi("max_point_err_over_scale_rank_deficient", err / scale)
+        tol = 1e-4 * scale
+    else:
+        tol = scale * max(PT_TOL, 5e4 * (ref["cond"] + kmid) * EPS)
+        out.maxi("max_point_err_over_scale_kappa_eps", err / (scale * (max(ref["cond"], 1.0) + kmid) * EPS))
+    if not (err <= tol):
         out.violate("subspace_point_differs", f"{where}: xbar={xbar.tolist()} but truncated reduced Newton point is {ref['xbar'].tolist()} "
                     f"(alpha*={ref['alpha']!r}, free={free.tolist()}, err {err:.3e}); x={x.tolist()} xc={xc.tolist()} g={g.tolist()} "
                     f"lb={lb.tolist()} ub={ub.tolist()}", **tags)
@@ -121,7 +135,7 @@ def synthetic_input(out, keys, x, g, lb, ub, mats, B, where, tags):
     except Exception as e:
         out.violate("subspace_raised", f"{where}: {e!r}; x={x.tolist()} xc={xc.tolist()} g={g.tolist()} lb={lb.tolist()} ub={ub.tolist()}", **tags)
         return
-    ref = judge_subspace(out, x, xc, g, lb, ub, B, xbar, where, tags)
+    ref = judge_subspace(out, x, xc, g, lb, ub, B, xbar, where, tags, mats=mats)
     if ref is not None and not out.violations:
         check_descent(out, x, g, lb, ub, xbar, where, tags, True)
         if 0 < ref["free"].size < x.size and ref["alpha"] < 1.0:
@@ -241,7 +255,7 @@ def run(spec):
                     except RuntimeError:
                         consistent = False
                 ref = judge_subspace(out, x, xc, g, lbv, ubv, B, ev["ret"],
-                                     f"run {spec['problem']['family']} call #{ic.calls['subspace_minimization']}", dict(source="run"))
+                                     f"run {spec['problem']['family']} call #{ic.calls['subspace_minimization']}", dict(source="run"), mats=mats)
                 if ref is not None and not out.violations:
                     check_descent(out, x, g, lbv, ubv, ev["ret"], "run", dict(source="run"), consistent)
                     if 0 < ref["free"].size < x.size and ref["alpha"] < 1.0:
